@@ -9,7 +9,9 @@ import "github.com/nspcc-dev/neofs-contract/common"
 // be deleted like any other.
 // param 0: era (0: v in [0.15.4, 0.17.0), 1: [0.17.0, current)); param 1: notary flag (0 absent, 1 false,
 // 2 true without ballots, 3 true with a stale ballot, 4 true with a pending ballot); param 2: 1 = both
-// containers belong to one owner.
+// containers belong to one owner; param 3: byte length of the epoch of a preset size estimation (0: none).
+// Estimation keys are "cnr"||epoch bytes||cid||10 bytes: their length varies with the epoch, which
+// putContainerSize takes from its caller unchecked, and the migration selects items by key length alone.
 func VerifC16MigrateContainer() {
 	era, notary, sameOwner := vParam(0), vParam(1), vParam(2) == 1
 	v := vInt("deployedVersion")
@@ -45,6 +47,12 @@ func VerifC16MigrateContainer() {
 	vPreset("container", []byte(neofsIDContractKey), vAcct("neofsid-placeholder"))
 	vPreset("container", []byte(nnsContractKey), vAcct("nns-placeholder"))
 	vPreset("container", []byte(nnsRootKey), "container")
+	estLen := vParam(3)
+	estEpoch, estSize, nodeKey := vInt("estimationEpoch"), vInt("estimationSize"), vKey("node")
+	if estLen != 0 {
+		vAssume(epochOfLen(estEpoch, estLen) && estSize >= 0 && estSize <= 1000000)
+		vPreset("container", estimationKey(estEpoch, idA, nodeKey), vSerialize(Estimation{From: nodeKey, Size: estSize}))
+	}
 	pending := false
 	if era == 0 {
 		switch notary {
@@ -103,6 +111,13 @@ func VerifC16MigrateContainer() {
 		}
 	}
 	vAssert(len(la.([][]byte)) == wantA && hasA && len(ia.([]any)) == wantA, "C16/migration-preserves-the-owner-index")
+	_, everybody := vRead("container", "containersOf", []byte{})
+	vAssert(len(everybody.([]any)) == 2, "C16/migration-preserves-the-owner-index")
+	if estLen != 0 {
+		_, re := vRead("container", "iterateContainerSizes", estEpoch, idA)
+		ests := re.([]Estimation)
+		vAssert(len(ests) == 1 && ests[0].Size == estSize && vEq(ests[0].From, nodeKey), "C16/migration-preserves-size-estimations")
+	}
 	okU, _ := vRead("container", "get", vSha256([]byte("unknown")))
 	vAssert(!okU, "C16/migration-invents-no-container")
 
@@ -112,4 +127,17 @@ func VerifC16MigrateContainer() {
 	_, cnt = vRead("container", "count")
 	_, la = vRead("container", "list", ownA)
 	vAssert(!okA && cnt.(int) == 1 && len(la.([][]byte)) == wantA-1, "C16/migrated-containers-are-usable")
+}
+
+// epochOfLen: the epoch's NeoVM integer encoding takes n bytes (n = 1, 2 or 12).
+func epochOfLen(e, n int) bool {
+	switch n {
+	case 1:
+		return e >= 1 && e <= 127
+	case 2:
+		return e >= 128 && e <= 32767
+	}
+	b := 1 << 44 // 2^87 <= e < 2^95; computed at run time: the bounds do not fit a Go constant
+	lo := b * b / 2
+	return e >= lo && e < lo*256
 }
